@@ -76,6 +76,7 @@ def run_property(P, tier, seed, replay=None):
     known = kv.load_known(prop)
 
     mismatches, spec_fail, not_executed, out_of_domain = [], [], 0, 0
+    not_executed_ids = []
     sigs = set()
     dist = {}
     for c in cases:
@@ -85,6 +86,9 @@ def run_property(P, tier, seed, replay=None):
         dist[k] = dist.get(k, 0) + 1
         if i is None or m is None:
             not_executed += 1
+            if len(not_executed_ids) < 50:
+                not_executed_ids.append({"id": c.id, "kind": k, "component": c.comp,
+                                         "missing": "+".join(w for w, v in (("implementation", i), ("model", m)) if v is None)})
             continue
         if ood(c, i):
             out_of_domain += 1
@@ -163,11 +167,20 @@ def run_property(P, tier, seed, replay=None):
             path = kv.write_replay(prop, replay_payload(mismatches[:5], "; ".join(reason),
                                                         {"broken_theorems": {n: results[n]["why"] for n in broken if n in results}}))
             violations.append((path, " no-failing-input-found"))
-    if cases and harness_error is None and not_executed > max(2, len(cases) // 50):
+    if cases and harness_error is None and not_executed > getattr(P, "MAX_NOT_EXECUTED", max(2, len(cases) // 50)):
         notes.append("harness error: %d of %d cases produced no output" % (not_executed, len(cases)))
         path = kv.write_replay(prop, {"property": prop, "reason": "correspondence broken: %d of %d cases could not be executed" % (not_executed, len(cases))})
         if not violations:
             violations.append((path, " no-failing-input-found"))
+
+    # property-specific harness trouble (e.g. too many scenarios that could not be run under their timing constraints)
+    if hasattr(P, "harness_trouble") and harness_error is None and cases:
+        why = P.harness_trouble(cases, impl, model)
+        if why:
+            notes.append("harness error: " + why)
+            path = kv.write_replay(prop, {"property": prop, "reason": "correspondence broken: " + why})
+            if not violations:
+                violations.append((path, " no-failing-input-found"))
 
     # ---- 6. extraction cross-check sample ---------------------------------------------------
     nsample = getattr(P, "KERNEL_SAMPLE", 40)
@@ -197,6 +210,7 @@ def run_property(P, tier, seed, replay=None):
         "distribution": dist,
         "out_of_domain": out_of_domain,
         "not_executed": not_executed,
+        "not_executed_ids": not_executed_ids,
         "mismatches_model_vs_implementation": len(mismatches),
         "spec_failures_on_implementation_output": len(spec_fail),
         "kernel_rechecked": max(nchk, 0),
